@@ -190,18 +190,27 @@ fn explore(args: &[String]) {
     for i in 0..count {
         let fam = &families[i % families.len()];
         let mut rng = Rng(seed.wrapping_mul(0x9E37_79B9).wrapping_add(i as u64 * 7919));
-        let sc = gen::gen(fam, &mut rng);
-        let strat = match rng.below(6) {
+        let mut sc = gen::gen(fam, &mut rng);
+        if arg(args, "--solo").is_some() && !sc.cfg.fut {
+            // C18 is about wait strategies that need no notification
+            sc.cfg.wait = if rng.chance(1, 2) { WaitCfg::Busy } else { WaitCfg::Yield(1, 1) };
+        }
+        let solo_only = arg(args, "--solo").is_some();
+        let strat = if solo_only {
+            if rng.chance(1, 2) { Strategy::FreezeThenSolo { delay: rng.below(60), bound: 150 } } else { Strategy::Solo { start: 20 + rng.below(200), tid: rng.below(4), bound: 150, when_pinned: rng.chance(1, 2) } }
+        } else { match rng.below(6) {
             0 | 1 => Strategy::Random,
             2 => Strategy::Pct { d: 1 },
             3 => Strategy::Pct { d: 2 },
             4 => Strategy::Pct { d: 3 },
             _ => Strategy::Stall { victim: rng.below(4), at: rng.below(120) },
-        };
+        } };
         let sname = match &strat {
             Strategy::Random => "random".to_string(),
             Strategy::Pct { d } => format!("pct{}", d),
             Strategy::Stall { .. } => "stall".to_string(),
+            Strategy::Solo { .. } => "solo".to_string(),
+            Strategy::FreezeThenSolo { .. } => "freeze_solo".to_string(),
             _ => "replay".to_string(),
         };
         let r = run_scenario(&sc, &strat, rng.next(), budget);
@@ -210,7 +219,7 @@ fn explore(args: &[String]) {
         total_calls += r.calls.len();
         *stats.entry(format!("family:{}", fam)).or_default() += 1;
         *stats.entry(format!("strategy:{}", sname)).or_default() += 1;
-        *stats.entry(format!("outcome:{}", match &r.outcome { Outcome::Finished => "finished", Outcome::Deadlock(_) => "deadlock", Outcome::Livelock(_) => "livelock", Outcome::Budget => "budget" })).or_default() += 1;
+        *stats.entry(format!("outcome:{}", match &r.outcome { Outcome::Finished => "finished", Outcome::Deadlock(_) => "deadlock", Outcome::Livelock(_) => "livelock", Outcome::Budget => "budget", Outcome::SoloExceeded(..) => "solo_exceeded" })).or_default() += 1;
         *stats.entry(format!("N:{}", monitors::valid_wrap(sc.cfg.cap))).or_default() += 1;
         *stats.entry(format!("threads:{}", r.nthreads)).or_default() += 1;
         *stats.entry(format!("flavour:{}", if sc.cfg.bcast { "bcast" } else { "mpmc" })).or_default() += 1;
